@@ -1632,6 +1632,7 @@ def soundness_family(tier, seed):
         "@dataclass\nclass InnerDTO:\n    v: int\n"
         "@dataclass\nclass InnerBad:\n    v: str\n"
         "class MyInt(int):\n    pass\n"
+        "from typing import NewType\nUserId = NewType('UserId', int)\nOrderId = NewType('OrderId', int)\n"
     )
     pairs = [
         ("int", "int", "as-is"), ("int", "str", "refuse"), ("bool", "int", "as-is"), ("int", "bool", "refuse"), ("MyInt", "int", "as-is"),
@@ -1652,6 +1653,13 @@ def soundness_family(tier, seed):
         ("List[Inner]", "List[InnerBad]", "refuse"), ("Optional[Inner]", "Optional[InnerBad]", "refuse"),
         ("Dict[str, Inner]", "Dict[str, InnerBad]", "refuse"), ("Tuple[int, ...]", "Tuple[str, ...]", "refuse"),
         ("Tuple[int, ...]", "Tuple[int, ...]", "accept"),
+        # a NewType destination is a distinct type: only the same NewType may be handed over
+        ("UserId", "UserId", "as-is"), ("int", "UserId", "refuse"), ("bool", "UserId", "refuse"), ("UserId", "OrderId", "refuse"),
+        ("List[int]", "List[UserId]", "refuse"), ("Optional[OrderId]", "Optional[UserId]", "refuse"), ("Dict[str, int]", "Dict[str, UserId]", "refuse"),
+        # same origin, other arguments, no structural coercer
+        ("Tuple[int, str]", "Tuple[int, str]", "accept"), ("Tuple[int, str]", "Tuple[str, int]", "refuse"),
+        ("Tuple[int, str]", "Tuple[int, str, bytes]", "refuse"),
+        ("Tuple[()]", "List[int]", "refuse"), ("List[int]", "Tuple[()]", "refuse"),
     ]
     import types
     for idx, (st, dt, want) in enumerate(pairs):
